@@ -906,6 +906,15 @@ func (g *gen) staticFor(d dyn) []typeRef {
 			out = append(out, typeRef{src: it.name(), names: names})
 		}
 	}
+	if !g.off["static-host-iface"] {
+		// host interfaces (error, fmt.Stringer) as static type of the operand
+		for _, hn := range []string{"fmt.Stringer", "error"} {
+			names := hostIfaces[hn]
+			if d.Idx >= 0 && g.m.implements(d.Idx, d.Ptr, names) {
+				out = append(out, typeRef{src: hn, names: names})
+			}
+		}
+	}
 	return out
 }
 
@@ -935,6 +944,9 @@ func (g *gen) probeAssertion() *probe {
 	st := sts[0]
 	if g.chance(45, "assert-static-iface") {
 		st = sts[g.pick(len(sts), "assert-static")]
+	}
+	if strings.Contains(st.src, ".") || st.src == "error" {
+		p.feat("assert:from-host-iface")
 	}
 	if len(st.names) > 0 {
 		p.feat("assert:from-iface")
@@ -1074,6 +1086,9 @@ func (g *gen) probeTypeSwitch() *probe {
 	st := sts[0]
 	if g.chance(40, "sw-static-iface") {
 		st = sts[g.pick(len(sts), "sw-static")]
+	}
+	if strings.Contains(st.src, ".") || st.src == "error" {
+		p.feat("sw:from-host-iface")
 	}
 	if len(st.names) > 0 {
 		p.feat("sw:from-iface")
